@@ -328,7 +328,7 @@ Dump ==
 MenusQuick == {"K1N0", "K2N1", "K3N2", "K4N3"}
 MenusThorough == AllMenus
 MaxReadsQuick == [m \in AllMenus |-> CASE m = "K1N0" -> 1 [] m = "K2N1" -> 2 [] m = "K3N1" -> 2
-                                        [] m = "K3N2" -> 2 [] m = "K4N2" -> 1 [] m = "K2N3" -> 2 [] m = "K4N3" -> 2]
+                                        [] m = "K3N2" -> 2 [] m = "K4N2" -> 1 [] m = "K2N3" -> 2 [] m = "K4N3" -> 1]
 MaxReadsThorough == [m \in AllMenus |-> CASE m = "K1N0" -> 1 [] m = "K2N1" -> 3 [] m = "K3N1" -> 3
                                         [] m = "K3N2" -> 2 [] m = "K4N2" -> 2 [] m = "K2N3" -> 3 [] m = "K4N3" -> 2]
 PatternsQuick == {"flat", "skew", "refzero"}
